@@ -167,6 +167,26 @@ pub fn table(ctx: &Ctx) -> Report {
     } else {
         rep.inconclusive("SSL_CERT_FILE is not set: the missing-host TLS cases were skipped");
     }
+    // StartTLS asked for in the settings: setup succeeds only if the server answered the StartTLS
+    // request with success (0); any other answer, the referral code 10 included, fails the setup with
+    // the server's result
+    {
+        use crate::lanes::starttls::{run, Got, Refusal};
+        use crate::msg::Res;
+        let rt = tokio::runtime::Builder::new_multi_thread().worker_threads(2).enable_all().build().expect("rt");
+        for rc in [10u32, 2, 52] {
+            let replay = json!({"lane":"table","case":"starttls-answered-with-a-non-success-code","rc":rc});
+            let refusal = Refusal { strays: vec![], res: Res { rc, matched: String::new(), text: "tls elsewhere".into(), refs: if rc == 10 { Some(vec!["ldap://tls.example.org/".into()]) } else { None } }, name: None, split: false };
+            match run(&rt, &refusal) {
+                Err(e) => rep.inconclusive(format!("starttls answer {}: {}", rc, e)),
+                Ok(None) => rep.inconclusive(format!("starttls answer {}: first attempt expired on the wall clock, the retry passed", rc)),
+                Ok(Some(Got::Result { rc: got, .. })) if got == rc => rep.count("ok_starttls_non_success_answer_fails_setup_with_that_result", 1),
+                Ok(Some(other)) => rep.violation(format!("C18:starttls-answered-with-code-{}:setup-does-not-fail-with-the-server's-result", if rc == 10 { "10".to_string() } else { "other".to_string() }), format!("ldap:// URL + set_starttls(true), server answers the StartTLS request with rc={}: {:?}", rc, other), replay),
+            }
+            rep.case(Some(fnv(format!("starttls-rc-{}", rc).as_bytes())));
+        }
+        rt.shutdown_background();
+    }
     let _lock = match lock_ports() {
         Some(l) => l,
         None => {
@@ -313,6 +333,11 @@ pub fn table(ctx: &Ctx) -> Report {
         // --- timeout bounds the whole establishment, including StartTLS ---
         cases.push(Case { url: format!("ldap://127.0.0.1:{}", ps), starttls: true, timeout_ms: Some(300), stream: Stream::None, expect: Expect::Err(vec!["Timeout"]), max_ms: Some(6_000), note: "StartTLS against a server that never answers: the connection timeout must fire" });
         cases.push(Case { url: format!("ldaps://127.0.0.1:{}", ps), starttls: false, timeout_ms: Some(300), stream: Stream::None, expect: Expect::Err(vec!["Timeout"]), max_ms: Some(6_000), note: "TLS handshake against a server that never answers: the connection timeout must fire" });
+        // the smallest timeouts are timeouts too: zero does not mean "none"
+        for t in [0u64, 1] {
+            cases.push(Case { url: format!("ldap://127.0.0.1:{}", ps), starttls: true, timeout_ms: Some(t), stream: Stream::None, expect: Expect::Err(vec!["Timeout"]), max_ms: Some(6_000), note: "StartTLS against a server that never answers, zero / 1 ms connection timeout" });
+            cases.push(Case { url: format!("ldaps://127.0.0.1:{}", ps), starttls: false, timeout_ms: Some(t), stream: Stream::None, expect: Expect::Err(vec!["Timeout"]), max_ms: Some(6_000), note: "TLS handshake against a server that never answers, zero / 1 ms connection timeout" });
+        }
         cases.push(Case { url: format!("ldap://127.0.0.1:{}", pe), starttls: true, timeout_ms: Some(2000), stream: Stream::None, expect: Expect::AnyErr, max_ms: Some(6_000), note: "StartTLS against a server that closes" });
         // --- fuzzed URLs: no panic, no hang ---
         let mut rng = Rng::new(seed ^ 0xc18);
